@@ -2,10 +2,21 @@
 
 package providers
 
-import "time"
+import (
+	"net/http"
+	"time"
+)
 
 // VerifSetHTTPTimeout raises the overall timeout of the package's IdP client (5 s in production).
 // Nothing else is touched. The C10 driver talks to a fake IdP on loopback; on a heavily loaded
 // machine a 5 s budget could turn a slow round trip into a spurious provider error, i.e. a false
 // alarm of the correspondence check.
 func VerifSetHTTPTimeout(d time.Duration) { httpClient.Timeout = d }
+
+// VerifWrapHTTPTransport lets the driver put a RoundTripper in front of the package's IdP client
+// transport (the real transport stays underneath and does all the work). The C10 driver uses it to
+// hold requests back before they are written to the wire, so that several logins are genuinely
+// in flight at once in a deterministic order (no sleeps).
+func VerifWrapHTTPTransport(wrap func(http.RoundTripper) http.RoundTripper) {
+	httpClient.Transport = wrap(httpClient.Transport)
+}
